@@ -3,7 +3,7 @@ from .core import BASE_TRUST, LEAN, Problem
 
 META = {
     "category": "proof",
-    "text": "PARTIAL. Lean 4 proof of the access discipline (own-index with disjoint ranges / sole goroutine / common lock / synchronisation object / read-only => no data race in ANY interleaving of ANY fork-join execution, all n, all access lists) and of the partition GoroutineTaskManager.RecordRange as generated from the source on every run (disjoint, tiles [0,len) in order, all len, all n>0; plus the stride and partition index spaces); the access facts of every worker closure of lib/query are regenerated from /repo and checked by `decide` (theorems facts_ok, facts_consistent, manager_fields_locked: consistent per location, NO unguarded access; pre-finding F7 was repaired in /repo by commit bec97d6 and stays watched: a new unguarded access breaks facts_ok and is reported as race:<file>:<function>:<variable>). TRUSTED, not proved: the step 'syntactic class => actual access pattern of the running program' (plain function callees of the closures are not analysed; methods called on shared objects are summarised from their source) and the Go memory model; cross-checked on every run by the Go race detector over filter/join/group/order/distinct/analytic/DML/file-load workloads at @@CPU 2..8",
+    "text": "PARTIAL. Lean 4 proof of the access discipline (own-index with disjoint ranges / sole goroutine / common lock / synchronisation object / read-only => no data race in ANY interleaving of ANY fork-join execution, all n, all access lists) and of the partition GoroutineTaskManager.RecordRange as generated from the source on every run (disjoint, tiles [0,len) in order, all len, all n>0; plus the stride and partition index spaces); the access facts of every worker closure of lib/query are regenerated from /repo and checked by `decide` (theorems facts_ok, facts_consistent, manager_fields_locked: consistent per location, NO unguarded access; pre-finding F7 was repaired in /repo by commit bec97d6 and stays watched: a new unguarded access breaks facts_ok and is reported as race:<file>:<function>:<variable>). TRUSTED, not proved: the step 'syntactic class => actual access pattern of the running program' (plain function callees of the closures are not analysed; methods called on shared objects are summarised from their source) and the Go memory model; cross-checked on every run by the Go race detector over filter/join/group/order/distinct/analytic/DML/file-load workloads at @@CPU 2..8. Objects that reach two goroutines WITHOUT a closure capturing them are covered by two further fact families checked by `decide` (release facts: no path of lib/query gives a node scope / block scope / merged record / key buffer back to its sync.Pool twice, deferred calls included — theorems pooled_objects_released_at_most_once, scopes_released_exactly_once; header facts: a view that takes another view's header instead of a copy is not written through — shared_headers_not_written, header_write_sites_reviewed) and by laws on the real code in the race workloads (pool probe after every failing statement of a history: objects taken from the scope pools while all are held are pairwise distinct; results of parallel sub-query statements unchanged after a history of failures; evaluating an expression for one record leaves the view's header and records unchanged)",
     "design_ref": "DESIGN.md section 5, C13",
     "note": "trusted: Lean kernel (propext, Classical.choice, Quot.sound only), the extractor extract/parfacts (syntactic, go/types; refuses unknown constructs), the lockset definition of a race in Csvq/Model/ForkJoin.lean as a rendering of the Go memory model for fork-join regions, Go's race detector (finds only races that occur in the executed schedules), 64-bit overflow ignored in RecordRange",
     "technique": "Lean 4 machine-checked proof of a race-freedom discipline + facts regenerated from the Go source (go/ast, go/types) checked by kernel evaluation + dynamic cross-check with `go build -race`",
@@ -37,6 +37,9 @@ def run(run):
         "index space 'partition' (analytic functions): the row numbers a worker draws from its own partitions[...] element belong to that partition (proved: distinct partitions are disjoint, partitions_disjoint)",
         "RecordRange arithmetic is translated over unbounded Int (no 64-bit overflow: every intermediate value is at most recordLen)",
         "the race detector only sees the schedules that occurred in this run",
+        "release facts: the releasers are found from the source (sync.Pool.Put and every function that hands its receiver / a parameter on to one); the count of releases per path is syntactic (structured control flow, loops unrolled 4 times, capped at 3; a release inside an expression, a goto, or a releaser called outside lib/query stops the extractor); objects are identified by the text of the released expression, an assignment of anything but nil starts a new object; the value pools of lib/value belong to C14",
+        "header facts: 'made anew' is syntactic (make / composite literal / Copy() / a function whose every return is such / a local all of whose definitions are); 'written afterwards' looks at the statements that follow the assignment in the enclosing statement lists of the same function (header-writing callees found transitively over lib/query); a header handed on through a struct field or a return value is not followed",
+        "OPEN (reported, off by default, switches C13_UDF_SETFLAG=1 / C13_ALIAS_SPARE=1 of the c13 stream): SET @@flag inside a user-defined function evaluated by parallel workers races with the unlocked reads of Tx.Flags; Header.Copy shares the Aliases backing arrays (a column with three names gets a fourth appended in place by every worker's JSON_OBJECT)",
     ]
     argv = ["go", "run", "-C", "extract/parfacts", "."]
     ok1 = run.regen("parfacts", argv + ["parfacts"], "Csvq/Gen/ParFacts.lean")
@@ -68,6 +71,61 @@ def run(run):
                 copy_shared.append(sg)
                 run.problems.append(Problem("direct", sg, {"what": "a Copy-style method leaves a reference-typed field of the copy pointing at the original's data: objects meant to be private to one goroutine share it",
                                                            "where": "%s:%s" % (m.group(1), m.group(2)), "how": m.group(6)}, concrete=False, signature=sg))
+
+    # Release facts (every object given back to a sync.Pool) and header facts (per-record views that take the outer
+    # header), see Csvq.C13.pooled_objects_released_at_most_once / shared_headers_not_written
+    allowed_leaks = {"releaseleak:inline_tables.go:InlineTableMap.Set:scope", "releaseleak:calc.go:Calc:scope.CreateNode()"}
+    scope_releasers = {"ReferenceScope.CloseCurrentNode", "ReferenceScope.CloseCurrentBlock", "Processor.Close", "PutNodeScope", "PutBlockScope",
+                       "PutComparisonkeysBuf", "never released (left to the garbage collector)"}
+    reviewed_header_writes = {
+        "headerwrite:Header.Update:h:View", "headerwrite:Header.Update:h:Column", "headerwrite:Header.Update:h:Aliases",
+        "headerwrite:joinViews:view.Header:View", "headerwrite:joinViews:view.Header:Number", "headerwrite:joinViews:view.Header:IsJoinColumn",
+        "headerwrite:RenameColumn:view.Header:Column", "headerwrite:View.group:view.Header:IsGroupKey", "headerwrite:View.evalColumn:view.Header:Aliases"}
+    double_release, release_leaks, header_shared, header_writes, n_release, n_hshare, n_hwrite = [], [], [], [], 0, 0, 0
+    if ok1 and pf.exists():
+        txt = pf.read_text()
+        S = r'"((?:[^"\\]|\\.)*)"'
+        _, _, tail = txt.partition("def releaseFacts")
+        tail = tail.partition("def headerShareFacts")[0]
+        for m in re.finditer(r'⟨%s, (\d+), %s, %s, %s, (\d+), (\d+), (\d+), (\d+)⟩' % (S, S, S, S), tail):
+            n_release += 1
+            file, line, fn, key, via = m.group(1), m.group(2), m.group(3), m.group(4), m.group(5)
+            nsites, defers, lo, hi = (int(m.group(i)) for i in (6, 7, 8, 9))
+            if hi > 1:
+                sg = "doublerelease:%s:%s:%s" % (file, fn, key)
+                double_release.append(sg)
+                run.problems.append(Problem("direct", sg, {
+                    "what": "a pooled object is given back to its sync.Pool more than once on some path through the function (the pool then hands it to two goroutines that both believe it is theirs)",
+                    "where": "%s:%s" % (file, line), "function": fn, "object": key, "released_through": via, "release_sites": nsites, "deferred_among_them": defers,
+                    "releases_on_a_path": "%d … %d" % (lo, hi),
+                    "failing_input": "see the laws pool_hands_out_distinct_scopes / parallel_result_after_failures of the race workloads (a history of failing statements, then the probe)"},
+                    concrete=False, signature=sg))
+            elif via in scope_releasers and lo != 1:
+                sg = "releaseleak:%s:%s:%s" % (file, fn, key)
+                if sg not in allowed_leaks:
+                    release_leaks.append(sg)
+                    run.problems.append(Problem("direct", sg, {"what": "a scope / buffer taken from a pool is not given back on some path (not a race: the object is lost to the pool; reviewed list in Csvq.C13.allowedLeaks)",
+                                                               "where": "%s:%s" % (file, line), "function": fn, "object": key}, concrete=False, signature=sg))
+        _, _, tail = txt.partition("def headerShareFacts")
+        tail = tail.partition("def headerWriteFacts")[0]
+        for m in re.finditer(r'⟨%s, (\d+), %s, %s, %s, (true|false), (true|false), %s⟩' % (S, S, S, S, S), tail):
+            n_hshare += 1
+            if m.group(6) == "false" and m.group(7) == "true":
+                sg = "headershare:%s:%s:%s" % (m.group(1), m.group(3), m.group(4))
+                header_shared.append(sg)
+                run.problems.append(Problem("direct", sg, {
+                    "what": "a view built inside a function takes the header of another view (no copy) and the function then writes header fields through it: every goroutine that evaluates a record of the outer view writes the one shared header",
+                    "where": "%s:%s" % (m.group(1), m.group(2)), "function": m.group(3), "header_taken_from": m.group(5), "then": m.group(8),
+                    "failing_input": "see the laws record_evaluation_leaves_view_unchanged / inner_names_stay_inside and the race reports of the record-view workloads"},
+                    concrete=False, signature=sg))
+        _, _, tail = txt.partition("def headerWriteFacts")
+        for m in re.finditer(r'⟨%s, (\d+), %s, %s, %s, (true|false)⟩' % (S, S, S, S), tail):
+            n_hwrite += 1
+            sg = "headerwrite:%s:%s:%s" % (m.group(3), m.group(4), m.group(5))
+            if m.group(6) == "false" and sg not in reviewed_header_writes:
+                header_writes.append(sg)
+                run.problems.append(Problem("direct", sg, {"what": "a statement writes a field of an element of a header its function did not make (not in the reviewed list Csvq.C13.reviewedHeaderWrites): is the header reachable from several goroutines?",
+                                                           "where": "%s:%s" % (m.group(1), m.group(2))}, concrete=False, signature=sg))
 
     if ok1 and ok2:
         run.obligations_for(["Csvq.Props.C13"])
@@ -116,15 +174,17 @@ def run(run):
         "access_facts": len(facts), "access_fact_classes": dist, "fork_join_regions": len({f["region"] for f in facts}),
         "unguarded_sites_static": sorted(sites), "unguarded_sites_confirmed_by_race_detector": sorted(confirmed),
         "race_reports_outside_unguarded_sites": unexplained, "copy_methods_sharing_state": copy_shared,
+        "release_facts": n_release, "double_releases_static": double_release, "release_leaks_not_reviewed": release_leaks,
+        "header_share_facts": n_hshare, "shared_headers_written_static": header_shared, "header_write_facts": n_hwrite, "header_writes_not_reviewed": header_writes,
     }
     if facts:
         run.cov["samples"] = ["fact %s:%d %s %s%s %s -> %s (%s)" % (f["file"], f["line"], f["fn"], f["var"], "[]" if f["elem"] else "", f["rw"], f["cls"], f["how"])
                               for f in facts[:: max(1, len(facts) // 5)]][:5] + run.cov["samples"]
     return run.finish(
         level="proof",
-        rule="static: every access to a shared variable in every fork-join region of lib/query (closures passed to GoroutineTaskManager.Run / EvaluateSequentially, bodies started with go, the parent between fork and join, methods of the manager types), classified and checked by kernel evaluation; dynamic: a load matrix first (CSV, TSV, fixed-length, LTSV, JSONL, JSON; from a file and from stdin; with and without header; row counts 159/161/299/301/650 in the quick tier and 1..2500 around 80, 160, 300, 320, 600, 640 in the thorough tier, on both sides of the 300-record loader buffer and of the 80-rows-per-worker threshold; @@CPU 1, 2, 4, 8), then correlated sub-queries (EXISTS, IN, scalar, NOT EXISTS under GROUP BY) with 10-12 distinct outer-column references over an outer table below and above the per-worker split size, then loads that fail in the middle of a file (surplus field, broken quote, LTSV line without separator, broken / non-object JSON line; at record 2, 350, 690 of 700; file and stdin) and loads cancelled after 50 µs … 8 ms, then inline tables (JSON_INLINE, CSV_INLINE) inside per-record sub-queries and set operations inside a sub-query of a recursive term (F80, F81, both fixed), then the function grid (every built-in scalar function of the Functions map evaluated per record over 700 rows, one type vector per first-argument type, in batches of 8 at @@CPU 2/4/8, plus value-dependent FORMAT / REGEXP / DATETIME / NUMBER_FORMAT calls) and STDIN touched for the first time inside a per-record sub-query (IN, EXISTS, scalar, LATERAL, ORDER BY), then ALTER TABLE ADD with columns without DEFAULT, with sub-query defaults and in every position on a 700-row table, then RAND / NOW / JSON_OBJECT, a user-defined function that FETCHes an outer cursor called from a parallel WHERE / select list next to CURSOR … IS OPEN / IS IN RANGE / COUNT (known finding F79), list aggregates WITHIN GROUP ordered by expressions over derived tables with many groups, prepared statements executed USING literals, variables, arithmetic and sub-queries (positional and named placeholders, GROUP BY/HAVING, UPDATE, cursors declared for prepared statements), then statements of 47 kinds (6 file formats, filters, 7 join forms, GROUP BY/HAVING, ORDER BY, DISTINCT, set operators, 4 analytic families, recursive CTE, DML, cursor, 6 failing statements) on tables of 200-3000 rows with @@CPU drawn from 2..8 under the race detector; non-trivial = distinct (statement kind, @@CPU, row band, error code)",
+        rule="static: every access to a shared variable in every fork-join region of lib/query (closures passed to GoroutineTaskManager.Run / EvaluateSequentially, bodies started with go, the parent between fork and join, methods of the manager types), classified and checked by kernel evaluation; dynamic: a load matrix first (CSV, TSV, fixed-length, LTSV, JSONL, JSON; from a file and from stdin; with and without header; row counts 159/161/299/301/650 in the quick tier and 1..2500 around 80, 160, 300, 320, 600, 640 in the thorough tier, on both sides of the 300-record loader buffer and of the 80-rows-per-worker threshold; @@CPU 1, 2, 4, 8), then correlated sub-queries (EXISTS, IN, scalar, NOT EXISTS under GROUP BY) with 10-12 distinct outer-column references over an outer table below and above the per-worker split size, then loads that fail in the middle of a file (surplus field, broken quote, LTSV line without separator, broken / non-object JSON line; at record 2, 350, 690 of 700; file and stdin) and loads cancelled after 50 µs … 8 ms, then inline tables (JSON_INLINE, CSV_INLINE) inside per-record sub-queries and set operations inside a sub-query of a recursive term (F80, F81, both fixed), then the function grid (every built-in scalar function of the Functions map evaluated per record over 700 rows, one type vector per first-argument type, in batches of 8 at @@CPU 2/4/8, plus value-dependent FORMAT / REGEXP / DATETIME / NUMBER_FORMAT calls) and STDIN touched for the first time inside a per-record sub-query (IN, EXISTS, scalar, LATERAL, ORDER BY), then ALTER TABLE ADD with columns without DEFAULT, with sub-query defaults and in every position on a 700-row table, then histories (every clause of a SELECT — WITH, select list, FROM, derived table, join condition, WHERE, GROUP BY, HAVING, ORDER BY, LIMIT, LIMIT PERCENT, OFFSET with and without LIMIT / WITH — made to fail by a missing field, a wrong argument count, a sub-query with too many rows or a user-defined function that raises, the failing SELECT standing as a statement, in WHERE IN / EXISTS / select list / ORDER BY of a parallel outer query, as derived table, LATERAL, set-operation operand, cursor query, INSERT … SELECT, UPDATE WHERE / SET, DELETE, CREATE TABLE AS, inside a function body, an IF block, a WHILE block and SELECT INTO: quick 56 of the 252 combinations, every clause and every position, thorough all; pass 1 at @@CPU 1 with the pool probe after every failing statement, pass 2 at @@CPU 4 (thorough 4, 2, 8) all failing statements, then five parallel statements with aliased sub-queries, joins and WITH per record whose output is compared with the output before the history), then per-record view builders (JSON_OBJECT with no members, *, table.*, plain columns, plain columns renamed, renamed to the same name, column numbers, * plus a renamed column, computed members, a sub-query member, a user-function member, nested JSON_OBJECT; correlated scalar / EXISTS / IN sub-queries, nested user-function calls, CASE over JSON_OBJECT, NOW / RAND) in the select list and WHERE of a 330-row (thorough 700) table for every expression and in ORDER BY / GROUP BY / HAVING / join condition / aggregate argument / analytic argument / UPDATE SET / INSERT … SELECT rotating (thorough: every clause, @@CPU 2, 4, 8), with the deterministic laws record_evaluation_leaves_view_unchanged and inner_names_stay_inside, then user-defined functions that change state per record (own variables, session variables, own temporary tables, cursors, nested functions, environment variables, blocks, recursion) in WHERE / select list / ORDER BY / GROUP BY / a sub-query, then RAND / NOW / JSON_OBJECT, a user-defined function that FETCHes an outer cursor called from a parallel WHERE / select list next to CURSOR … IS OPEN / IS IN RANGE / COUNT (known finding F79), list aggregates WITHIN GROUP ordered by expressions over derived tables with many groups, prepared statements executed USING literals, variables, arithmetic and sub-queries (positional and named placeholders, GROUP BY/HAVING, UPDATE, cursors declared for prepared statements), then statements of 47 kinds (6 file formats, filters, 7 join forms, GROUP BY/HAVING, ORDER BY, DISTINCT, set operators, 4 analytic families, recursive CTE, DML, cursor, 6 failing statements) on tables of 200-3000 rows with @@CPU drawn from 2..8 under the race detector; non-trivial = distinct (statement kind, @@CPU, row band, error code)",
         trusted_base=BASE_TRUST + [
-            "extract/parfacts: syntactic access classification (go/ast + go/types), refuses constructs without a rule; plain function callees of worker closures are not analysed; method summaries are syntactic",
+            "extract/parfacts: syntactic access classification (go/ast + go/types), refuses constructs without a rule; plain function callees of worker closures are not analysed; method summaries are syntactic; release facts (paths counted over structured control flow) and header facts (syntactic freshness, statements following in the same function)",
             "the Go memory model, rendered as the lockset race definition of Csvq/Model/ForkJoin.lean",
             "the Go race detector (dynamic cross-check; sees only the schedules that occurred)"],
         checker_cmd="cd /verif && go run -C extract/parfacts . parfacts > lean/Csvq/Gen/ParFacts.lean && go run -C extract/parfacts . recordrange > lean/Csvq/Gen/RecordRange.lean && cd lean && lake build Csvq.Props.C13 && lake env lean <#print axioms for every theorem>; cd /verif/harness && CGO_ENABLED=1 go build -race -tags verif ./cmd/c13",
